@@ -1,36 +1,49 @@
 #!/usr/bin/env python3
-"""Generates engines/scope/selftest.json: unified diffs (relative to the tree with hooks.patch applied) of the mutants
-and benign edits used to demonstrate the binding.  Usage: mk_selftest.py <hooked tree>"""
+"""Generates engines/scope/selftest.json: unified diffs (relative to /repo, which contains the scope.* schedule points and the
+end_scope repair) of the mutants and benign edits used to demonstrate the binding.  Usage: mk_selftest.py [tree]"""
 import difflib, json, os, sys
-tree = sys.argv[1] if len(sys.argv) > 1 else "/tmp/wt_scope"
+tree = sys.argv[1] if len(sys.argv) > 1 else "/repo"
 V2, V1, V0, EV = "include/unifex/v2/async_scope.hpp", "include/unifex/v1/async_scope.hpp", "include/unifex/v0/async_scope.hpp", "source/async_manual_reset_event_v1.cpp"
+DBG = "include/unifex/detail/debug_async_scope.hpp"
 M = [
+ ("regress_end_scope_fix", V2, "    if ((oldState & scopeEndedBit) != 0u && use_count(oldState) == 0) {", "    if (use_count(oldState) == 0) {", "violation",
+  "regression of the repair: every end_scope() that finds count == 0 signals (must be a VIOLATION, not a known finding)"),
+ ("regress_end_of_scope_fix_v0", V0, "    if ((oldState & stoppedBit) != 0u && op_count(oldState) == 0) {", "    if (op_count(oldState) == 0) {", "violation",
+  "regression of the repair in the v0 scope"),
  ("rc_signals_at_one", V2, "    if (scope_ended(oldState) && use_count(oldState) == 1u) {", "    if (scope_ended(oldState) && use_count(oldState) <= 2u) {", "violation",
   "record_completion signals the join event already when the count drops to 1"),
- ("end_scope_never_signals", V2, "    if (use_count(oldState) == 0) {\n      // there are no outstanding operations to wait for\n      evt_.set();", "    if (use_count(oldState) == 0 && scope_ended(oldState)) {\n      // there are no outstanding operations to wait for\n      evt_.set();", "violation",
+ ("end_scope_never_signals", V2, "    if ((oldState & scopeEndedBit) != 0u && use_count(oldState) == 0) {", "    if ((oldState & scopeEndedBit) == 0u && use_count(oldState) == 0) {", "violation",
   "end_scope does not signal when it closes a scope whose count is already 0 (join never completes)"),
  ("admit_after_close", V2, "      if (scope_ended(opState)) {\n        return false;\n      }\n\n      UNIFEX_ASSERT(opState + 2u > opState);", "      if (scope_ended(opState) && use_count(opState) == 0) {\n        return false;\n      }\n\n      UNIFEX_ASSERT(opState + 2u > opState);", "violation",
   "try_record_start keeps admitting after the close while other work is outstanding"),
+ ("trs_closed_test_hoisted", V2, "    do {\n      if (scope_ended(opState)) {\n        return false;\n      }\n\n      UNIFEX_ASSERT(opState + 2u > opState);", "    if (scope_ended(opState)) {\n      return false;\n    }\n    do {\n      UNIFEX_ASSERT(opState + 2u > opState);", "violation",
+  "try_record_start tests the open bit only before the CAS loop (a failed CAS that reloads a closed word still admits)"),
  ("copy_without_count", V2, "  scope_reference(const scope_reference& other) noexcept\n    : scope_reference(other.scope_) {}", "  scope_reference(const scope_reference& other) noexcept\n    : scope_(other.scope_) {}", "violation",
   "copying a nest sender copies the scope reference without a second try_record_start"),
  ("v1_cleanup_no_stop", V1, "        just_from([this]() noexcept { request_stop(); }), scope_.join());", "        just_from([this]() noexcept { scope_.end_scope(); }), scope_.join());", "violation",
   "v1 cleanup() closes the scope but does not request stop"),
  ("v1_request_stop_no_stop", V1, "    UNIFEX_VERIF_YIELD(\"scope.v1_rs\");\n    stopSource_.request_stop();", "    UNIFEX_VERIF_YIELD(\"scope.v1_rs\");", "violation",
   "v1 request_stop() closes the scope but does not request stop"),
+ ("v1_attach_no_forward", V1, "    UNIFEX_VERIF_YIELD(\"future.att_req_stop\");\n    stopSource_.request_stop();", "    UNIFEX_VERIF_YIELD(\"future.att_req_stop\");", "violation",
+  "the attach operation's stop callbacks (scope token and receiver token) no longer forward the stop request to the nested operation"),
+ ("v1_attach_double_complete", V1, "    if (refcount_.fetch_sub(1, std::memory_order_acq_rel) == 1) {", "    if (refcount_.fetch_sub(1, std::memory_order_acq_rel) <= 2) {", "violation",
+  "attach try_complete: both the nested completion and a stop callback believe they are the completer"),
  ("v0_record_done_early", V0, "    if (is_stopping(oldState) && op_count(oldState) == 1) {", "    if (is_stopping(oldState) && op_count(oldState) <= 2) {", "violation",
   "v0 record_done signals the join event already when the count drops to 1"),
- ("event_set_first_waiter_only", EV, "  while (op != nullptr) {", "  if (op != nullptr) {", "violation",
-  "async_manual_reset_event::set() completes only the first waiter (second racing join never completes)"),
  ("v0_admit_after_close", V0, "      if (is_stopping(opState)) {\n        return false;\n      }", "      if (is_stopping(opState) && op_count(opState) == 0) {\n        return false;\n      }", "violation",
   "v0 try_record_start keeps admitting after the close while other work is outstanding"),
- ("proposed_fix_end_scope", V2, "    if (use_count(oldState) == 0) {\n      // there are no outstanding operations to wait for\n      evt_.set();", "    if (!scope_ended(oldState) && use_count(oldState) == 0) {\n      // there are no outstanding operations to wait for\n      evt_.set();", "clean",
-  "the proposed repair of the known finding in v2::async_scope::end_scope (v2 + v1 scopes; v0 keeps the finding): no violation, v2/v1 eager units survive"),
+ ("event_set_first_waiter_only", EV, "  while (op != nullptr) {", "  if (op != nullptr) {", "violation",
+  "async_manual_reset_event::set() completes only the first waiter (second racing join never completes)"),
+ ("debug_deregister_after_complete", DBG, "    ops_->deregister_debug_operation(this);\n    func(std::move(receiver_));", "    auto ops = ops_;\n    func(std::move(receiver_));\n    ops->deregister_debug_operation(this);", "violation",
+  "debug_async_scope: the operation is removed from the scope's registry only after its receiver (and with it possibly the join) has completed"),
  ("benign_comment", V2, "    auto oldState = scope->opState_.fetch_sub(2u, std::memory_order_acq_rel);", "    // drop one reference\n    auto oldState = scope->opState_.fetch_sub(2u, std::memory_order_acq_rel);", "clean",
   "comment added"),
  ("benign_hook_removed", V2, "    UNIFEX_VERIF_YIELD(\"scope.rc_fsub\");\n", "", "clean",
   "schedule point scope.rc_fsub removed (guided replay drifts; no alarm)"),
  ("benign_seq_cst", V2, "        opState, opState + 2u, std::memory_order_relaxed));", "        opState, opState + 2u, std::memory_order_seq_cst));", "clean",
   "memory order of the admission CAS strengthened"),
+ ("benign_equivalent_fix_form", V2, "    if ((oldState & scopeEndedBit) != 0u && use_count(oldState) == 0) {", "    if (!scope_ended(oldState) && use_count(oldState) == 0) {", "clean",
+  "the repair written with the helper predicate (behaviourally identical; header detection must not misfire)"),
 ]
 out = []
 for name, f, old, new, expect, desc in M:
